@@ -75,7 +75,9 @@ RULE = ("class hierarchies (1-3 levels of single inheritance, fresh classes per 
         "Map values (Map[String, V], Array[Map[String, V]], V with a nested class, safe mappers only: specified document "
         "and round trip on the real code); an ORACLE-ONLY stream of FunctionCall mapper values (one FunctionCall without / with "
         "field-name args, optional rename of another field, top / nested / Array-nested, explicit mapper= or class-level, "
-        "camel on/off: specified document and round trip with the inverse function); 40% of the cases carry a HISTORY of 1-3 earlier calls in the same "
+        "camel on/off: specified document and round trip with the inverse function); an ORACLE-ONLY stream of String / Boolean / "
+        "Float / Integer leaves incl. falsy values under collision-free mappers (flat, nested, Array-nested): specified "
+        "document and round trip; 40% of the cases carry a HISTORY of 1-3 earlier calls in the same "
         "process on the same class objects (same class with the other / same camel flag, same / other override, "
         "a nested class serialized on its own first), plus a directed stream of [camel, plain, camel] and [plain, "
         "camel] histories per class (process-wide cache aggregated_mapper_by_class); every call of a history is "
@@ -84,7 +86,7 @@ RULE = ("class hierarchies (1-3 levels of single inheritance, fresh classes per 
         "some mapper, camel flag or explicit mapper present; distinct by sha256 of the canonical case line")
 ASSUMPTIONS = [
     "the Lean model is rename-only: no FunctionCall / Constant values (FunctionCall: oracle-only stream); structures stored as Map values are in the Lean model but outside its round-trip theorems and specification document (their round trip is judged by the oracle-only stream)",
-    "scalar fields are Integer fields; Set[...] fields are compared order-insensitively; no compact form",
+    "scalar fields of the Lean model are Integer fields (other JSON-native scalars: oracle-only stream); Set[...] fields are compared order-insensitively; no compact form",
     "PYTHONHASHSEED=0 (the order of instance attributes, which decides the winner of a key collision, comes from the constructor signature)",
     "entry points: Deserializer(cls, ...).deserialize(doc) with its default keep_undefined or an explicit one, and deserialize_structure(..., keep_undefined=False); an explicit keep_undefined=True (and deserialize_structure's default) deliberately keeps every key that is not a field name, mapped keys included (pinned by typedpy's test_custom_mapper_keeps_undefined_attributes), so it is compared with the model but is not an entry point of the round-trip claim",
     "a _deserialization_mapper that differs from the serialization mapper asks for different keys by design: compared with the model, never judged for round trip",
@@ -115,6 +117,8 @@ def judge(case, impl, model):
         return S.judge_map(case, impl)
     if case.get("oracle") == "fc":
         return S.judge_fc(case, impl)
+    if case.get("oracle") == "scalar":
+        return S.judge_scalar(case, impl)
     cd = case["cls"]
     pre = case.get("pre") or []
     hist = ""
